@@ -41,7 +41,21 @@ enum Kind {
     /// `{\gdef\m..}` – defined inside a group, called outside
     GroupGdef,
     GlobalDef,
+    /// `\def\m#1#2#3{wrong}` first, then the real definition: the same name defined twice
+    Redefined,
+    /// the real definition, then `{\def\m{wrong}}`: a local redefinition that has ended
+    GroupShadow,
+    GlobalGdef,
+    GlobalGlobalDef,
+    LongDef,
+    GlobalLongDef,
+    LongGlobalDef,
+    OuterLongGlobalDef,
+    LongOuterGdef,
+    /// the macro is the active character `~` instead of `\m`
+    ActiveName,
 }
+const ALL_KINDS: [Kind; 14] = [Kind::Def, Kind::Gdef, Kind::GroupGdef, Kind::GlobalDef, Kind::Redefined, Kind::GroupShadow, Kind::GlobalGdef, Kind::GlobalGlobalDef, Kind::LongDef, Kind::GlobalLongDef, Kind::LongGlobalDef, Kind::OuterLongGlobalDef, Kind::LongOuterGdef, Kind::ActiveName];
 impl Kind {
     fn name(self) -> &'static str {
         match self {
@@ -49,17 +63,80 @@ impl Kind {
             Kind::Gdef => "gdef",
             Kind::GroupGdef => "group-gdef",
             Kind::GlobalDef => "global-def",
+            Kind::Redefined => "redefined",
+            Kind::GroupShadow => "group-shadow",
+            Kind::GlobalGdef => "global-gdef",
+            Kind::GlobalGlobalDef => "global-global-def",
+            Kind::LongDef => "long-def",
+            Kind::GlobalLongDef => "global-long-def",
+            Kind::LongGlobalDef => "long-global-def",
+            Kind::OuterLongGlobalDef => "outer-long-global-def",
+            Kind::LongOuterGdef => "long-outer-gdef",
+            Kind::ActiveName => "active-name",
         }
     }
     fn parse(s: &str) -> Kind {
-        match s {
-            "gdef" => Kind::Gdef,
-            "group-gdef" => Kind::GroupGdef,
-            "global-def" => Kind::GlobalDef,
-            _ => Kind::Def,
+        ALL_KINDS.iter().copied().find(|k| k.name() == s).unwrap_or(Kind::Def)
+    }
+    /// source text of the definition, given the text that follows the macro's name
+    fn head(self, text: &str) -> String {
+        match self {
+            Kind::Def => format!("\\def\\m{text}"),
+            Kind::Gdef => format!("\\gdef\\m{text}"),
+            Kind::GroupGdef => format!("{{\\gdef\\m{text}}}"),
+            Kind::GlobalDef => format!("\\global\\def\\m{text}"),
+            Kind::Redefined => format!("\\def\\m#1#2#3{{wrong}}\\def\\m{text}"),
+            Kind::GroupShadow => format!("\\def\\m{text}{{\\def\\m{{wrong}}}}"),
+            Kind::GlobalGdef => format!("\\global\\gdef\\m{text}"),
+            Kind::GlobalGlobalDef => format!("\\global\\global\\def\\m{text}"),
+            Kind::LongDef => format!("\\long\\def\\m{text}"),
+            Kind::GlobalLongDef => format!("\\global\\long\\def\\m{text}"),
+            Kind::LongGlobalDef => format!("\\long\\global\\def\\m{text}"),
+            Kind::OuterLongGlobalDef => format!("\\outer\\long\\global\\def\\m{text}"),
+            Kind::LongOuterGdef => format!("\\long\\outer\\gdef\\m{text}"),
+            Kind::ActiveName => format!("\\def~{text}"),
+        }
+    }
+    fn macro_tok(self) -> Tok {
+        if self == Kind::ActiveName {
+            Tok::Ch('~', 13)
+        } else {
+            Tok::Cs("m")
         }
     }
 }
+
+/// How the call is made and observed.
+#[derive(Clone, Copy, PartialEq, Eq, Debug)]
+enum Route {
+    /// `\xa\capture\m<call>\relax Z\END`: one step of `expand_once`, the result captured verbatim
+    Capture,
+    /// the same after a call of another macro (`\def\w#1#2.{}\w{xx}{yy}zz.`): the argument buffer is a reused one
+    Warmup,
+    /// the replacement text starts with `\n` (`\def\n[#1]{<#1>}`) and two expansion steps are observed
+    Nested,
+    /// `\m<call>\relax Z\END` executed by the main loop: the call is made by `next_expanded`, the result
+    /// reaches the character handler (braces become groups and are not seen)
+    MainLoop,
+    /// `\xa\capture\m<call>` at the very end of the input (no sentinel)
+    Eof,
+}
+impl Route {
+    fn name(self) -> &'static str {
+        match self {
+            Route::Capture => "capture",
+            Route::Warmup => "warmup",
+            Route::Nested => "nested",
+            Route::MainLoop => "main-loop",
+            Route::Eof => "end-of-input",
+        }
+    }
+    fn parse(s: &str) -> Route {
+        [Route::Capture, Route::Warmup, Route::Nested, Route::MainLoop, Route::Eof].into_iter().find(|r| r.name() == s).unwrap_or(Route::Capture)
+    }
+}
+const WARMUP: &str = "\\def\\w#1#2.{}\\w{xx}{yy}zz.";
+const NESTED_DEF: &str = "\\def\\n[#1]{<#1>}";
 
 #[derive(Clone, Copy, Debug, PartialEq)]
 enum Piece {
@@ -193,12 +270,7 @@ fn def_ctx(spec: DefSpec) -> Result<DefCtx, String> {
         return Err(format!("model stops early in the definition {}", mm::show(&toks)));
     }
     let text = render(&toks, true).ok_or_else(|| format!("definition {} cannot be written as source text", mm::show(&toks)))?;
-    let head = match spec.kind {
-        Kind::Def => format!("\\def\\m{text}"),
-        Kind::Gdef => format!("\\gdef\\m{text}"),
-        Kind::GroupGdef => format!("{{\\gdef\\m{text}}}"),
-        Kind::GlobalDef => format!("\\global\\def\\m{text}"),
-    };
+    let head = spec.kind.head(&if spec.kind == Kind::ActiveName { render(&toks, false).unwrap_or_default() } else { text });
     let (eff_prefix, eff_params) = spec.effective();
     let json = spec.json();
     Ok(DefCtx { spec, model, head, eff_prefix, eff_params, json })
@@ -217,12 +289,21 @@ fn model_disagreement(msg: String) {
     }
 }
 
-/// What the two models say about a call. `Ok((call, expected_capture))` when the call is in the
-/// property's domain.
-fn oracle(d: &DefCtx, call: &[Tok]) -> (Vec<Tok>, Result<(mm::Call, Vec<Tok>), String>) {
+/// What the two models say about a call. `Ok((call, expected observation))` when the call is in the
+/// property's domain (for the given route).
+fn oracle(d: &DefCtx, call: &[Tok], route: Route) -> (Vec<Tok>, Result<(mm::Call, Vec<Tok>), String>) {
     let mut full: Vec<Tok> = Vec::with_capacity(call.len() + 3);
     full.extend_from_slice(call);
-    full.extend_from_slice(&[RELAX, Z, END]);
+    if route == Route::Eof {
+        // the end of the (only) line: TeX appends the end-of-line character, which becomes a space token
+        // unless the scanner is skipping blanks (after a control word or a space) – §343-§348
+        match call.last() {
+            None | Some(Tok::Cs(_)) | Some(Tok::Ch(' ', 10)) => {}
+            Some(_) => full.push(SP),
+        }
+    } else {
+        full.extend_from_slice(&[RELAX, Z, END]);
+    }
     let tr = mm::macro_call(&d.model, &full, false);
     let sp = mm::spec_call(&d.eff_prefix, &d.eff_params, &full);
     match (&tr, &sp) {
@@ -233,39 +314,124 @@ fn oracle(d: &DefCtx, call: &[Tok]) -> (Vec<Tok>, Result<(mm::Call, Vec<Tok>), S
     let r = match tr {
         Err(e) => Err(format!("{e:?}")),
         Ok(c) => {
-            if c.consumed > call.len() + 2 {
+            if route == Route::Eof {
+                let mut want = c.expansion.clone();
+                want.extend_from_slice(&full[c.consumed..]);
+                want.push(Tok::Cs("<eof>"));
+                Ok((c, want))
+            } else if c.consumed > call.len() + 2 {
                 Err("MatchSwallowsEND".to_string())
             } else {
                 let mut want = c.expansion.clone();
                 want.extend_from_slice(&full[c.consumed..full.len() - 1]);
-                Ok((c, want))
+                match route {
+                    Route::Nested => {
+                        // second step: \n[#1]{<#1>} applied to what the first step left
+                        let ndef = mm::scan_def(&lex("[#1]{<#1>}")).expect("nested definition").0;
+                        want.push(END);
+                        if want.first() != Some(&Tok::Cs("n")) {
+                            Err("NestedBodyDoesNotStartWithN".into())
+                        } else {
+                            match mm::macro_call(&ndef, &want[1..], false) {
+                                Err(e) => Err(format!("second call: {e:?}")),
+                                Ok(c2) if 1 + c2.consumed >= want.len() => {
+                                    let _ = c2;
+                                    Err("second call swallows END".into())
+                                }
+                                Ok(c2) => {
+                                    let mut w2 = c2.expansion.clone();
+                                    w2.extend_from_slice(&want[1 + c2.consumed..want.len() - 1]);
+                                    Ok((c, w2))
+                                }
+                            }
+                        }
+                    }
+                    Route::MainLoop => {
+                        // what reaches the handlers: everything but the braces, provided they nest
+                        want.push(END);
+                        let mut depth = 0i64;
+                        let mut ok = true;
+                        let mut seen: Vec<Tok> = vec![];
+                        for t in &want {
+                            if t.is_left_brace() {
+                                depth += 1;
+                            } else if t.is_right_brace() {
+                                depth -= 1;
+                                if depth < 0 {
+                                    ok = false;
+                                    break;
+                                }
+                            } else {
+                                seen.push(*t);
+                            }
+                        }
+                        if ok {
+                            Ok((c, seen))
+                        } else {
+                            Err("ResultHasUnmatchedRightBrace".into())
+                        }
+                    }
+                    _ => Ok((c, want)),
+                }
             }
         }
     };
     (full, r)
 }
 
-fn run_case(d: &DefCtx, full: &[Tok], full_state: bool) -> (Outcome, String, &'static str) {
+/// In the end-of-input route `full` = call (+ the space token that the end of the line turns into); only the call is written.
+/// The space was appended by `oracle` exactly when the call ends with a token other than a control sequence or a space.
+fn eof_written_len(full: &[Tok]) -> usize {
+    if full.len() >= 2 && full[full.len() - 1] == SP && !matches!(full[full.len() - 2], Tok::Cs(_) | Tok::Ch(' ', 10)) {
+        full.len() - 1
+    } else {
+        full.len()
+    }
+}
+
+fn run_case(d: &DefCtx, full: &[Tok], full_state: bool, route: Route) -> Option<(Outcome, String, &'static str)> {
+    let mtok = d.spec.kind.macro_tok();
+    let pre = match route {
+        Route::Warmup => WARMUP,
+        Route::Nested => NESTED_DEF,
+        _ => "",
+    };
+    let lead: &[Tok] = match route {
+        Route::Nested => &[Tok::Cs("capturetwo")],
+        Route::MainLoop => &[],
+        _ => &[Tok::Cs("xa"), Tok::Cs("capture")],
+    };
+    // what the lexer has to produce after the definition; the end-of-line space of the Eof route is not written
+    let mut stream: Vec<Tok> = lead.to_vec();
+    stream.push(mtok);
+    let written: &[Tok] = if route == Route::Eof { &full[..eof_written_len(full)] } else { full };
+    stream.extend_from_slice(written);
     // through the lexer when the token string can be written as text, through \inject otherwise
-    let (src, injected, mode): (String, Vec<Tok>, &'static str) = match render(full, true) {
-        Some(t) => (format!("{}\\xa\\capture\\m{}", d.head, t), vec![], "text"),
-        None => {
-            let mut inj = vec![Tok::Cs("xa"), Tok::Cs("capture"), Tok::Cs("m")];
-            inj.extend_from_slice(full);
-            (format!("{}\\inject", d.head), inj, "inject")
-        }
+    let (src, injected, mode): (String, Vec<Tok>, &'static str) = match render(&stream, false) {
+        Some(t) => (format!("{pre}{}{}", d.head, t), vec![], "text"),
+        None if route == Route::Eof => return None,
+        None => (format!("{pre}{}\\inject", d.head), stream.clone(), "inject"),
     };
     let out = if full_state { run_full(&src, &injected, false) } else { run_m_macro_only(&src, &injected) };
-    (out, src, mode)
+    Some((out, src, mode))
 }
 
 /// `distinct`: given the model's binding, is this case to be counted among the *distinct* non-trivial
 /// cases (false for re-runs and for cases another family or another index already covers).
 fn check_case(idx: u64, d: &DefCtx, call: &[Tok], full_state: bool, distinct: &dyn Fn(&mm::Call) -> bool, acc: &mut Acc) {
+    check_case_route(idx, d, call, full_state, Route::Capture, distinct, acc)
+}
+fn check_case_route(idx: u64, d: &DefCtx, call: &[Tok], full_state: bool, route: Route, distinct: &dyn Fn(&mm::Call) -> bool, acc: &mut Acc) {
     acc.eval();
-    let (full, want) = oracle(d, call);
-    let (out, src, mode) = run_case(d, &full, full_state);
-    let case = || json!({"def": d.json, "call": toks_json(call), "full_state": full_state, "mode": mode, "program": src, "call_readable": mm::show(call)});
+    let (full, want) = oracle(d, call, route);
+    let (out, src, mode) = match run_case(d, &full, full_state, route) {
+        Some(x) => x,
+        None => {
+            acc.skipped += 1; // the end-of-input route exists only for calls that can be written as text
+            return;
+        }
+    };
+    let case = || json!({"def": d.json, "call": toks_json(call), "full_state": full_state, "route": route.name(), "mode": mode, "program": src, "call_readable": mm::show(call)});
     if SHOW.load(Ordering::Relaxed) > 0 {
         eprintln!("program : {src}\noracle  : {}\nobserved: {}", want.as_ref().map(|w| mm::show(&w.1)).unwrap_or_else(|e| format!("outside the domain ({e})")), out.show());
     }
@@ -578,8 +744,15 @@ fn main() {
     if let Some((_fam, case)) = ctx.replay_case() {
         let mut acc = Acc::default();
         SHOW.store(1, Ordering::Relaxed);
+        if case["kind"] == "truncation" {
+            acc.eval();
+            if let Outcome::Panic(p) = run_m_macro_only(case["program"].as_str().unwrap_or(""), &[]) {
+                acc.fail(0, case.clone(), "no panic", p.describe(), "panic on a truncated program");
+            }
+            ctx.finish_replay(acc);
+        }
         match def_ctx(DefSpec::from_json(&case["def"])) {
-            Ok(d) => check_case(0, &d, &toks_parse(&case["call"]), case["full_state"].as_bool().unwrap_or(false), &|_| true, &mut acc),
+            Ok(d) => check_case_route(0, &d, &toks_parse(&case["call"]), case["full_state"].as_bool().unwrap_or(false), Route::parse(case["route"].as_str().unwrap_or("capture")), &|_| true, &mut acc),
             Err(e) => {
                 eprintln!("replay: {e}");
                 std::process::exit(2);
@@ -588,7 +761,6 @@ fn main() {
         after_family(&mut ctx);
         ctx.finish_replay(acc);
     }
-    let thorough = !ctx.quick();
     let f1_maxlen: usize = ctx.pick(5, 7);
 
     // F1: every call string over the 7-token alphabet against every parameter text
@@ -652,6 +824,130 @@ fn main() {
         after_family(&mut ctx);
     }
 
+    // F1d: other routes to and from the call
+    {
+        let specs = defs_for_strings(false);
+        let mut defs = build_ctxs(specs.clone(), &mut ctx);
+        // for the nested route the replacement text starts with \\n
+        let nested_specs: Vec<DefSpec> = specs
+            .into_iter()
+            .map(|mut sp| {
+                sp.body.insert(0, Piece::T(Tok::Cs("n")));
+                sp
+            })
+            .collect();
+        let ndefs = build_ctxs(nested_specs, &mut ctx);
+        let nd = defs.len();
+        defs.extend(ndefs);
+        let maxlen = ctx.pick(4u32, 5u32);
+        let ncalls = vcore::strings_upto(7, maxlen);
+        let routes = [Route::Warmup, Route::Nested, Route::MainLoop, Route::Eof];
+        let n = nd as u64 * ncalls * routes.len() as u64;
+        let dref = &defs;
+        ctx.family(
+            "call-routes",
+            &format!("the {nd} definitions of calls-all-strings x every call string of length <= {maxlen} x 4 routes: after a call of another macro (reused argument buffer); replacement text starting with a second macro, two expansion steps observed; the call made by the main loop (next_expanded) and its result delivered to the character handler; the call at the very end of the input (no sentinel, the end of the line supplies a space token)"),
+            n,
+            |i, acc| {
+                let dg = vcore::digits(i, &[routes.len() as u64, nd as u64, ncalls]);
+                let route = routes[dg[0] as usize];
+                let d = &dref[dg[1] as usize + if route == Route::Nested { nd } else { 0 }];
+                let call: Vec<Tok> = vcore::nth_string(7, dg[2]).into_iter().map(|j| CALL_ALPHA[j as usize]).collect();
+                let before = acc.counters.get("matching_calls").copied().unwrap_or(0);
+                check_case_route(i, d, &call, false, route, &|_| false, acc);
+                if acc.counters.get("matching_calls").copied().unwrap_or(0) > before {
+                    acc.count(match route {
+                        Route::Warmup => "route_matching_call_after_another_call",
+                        Route::Nested => "route_matching_call_inside_an_expansion",
+                        Route::MainLoop => "route_matching_call_made_by_the_main_loop",
+                        _ => "route_matching_call_at_end_of_input",
+                    });
+                }
+                if i % 400_009 == 21 {
+                    acc.sample(i, || json!({"route": route.name(), "definition": d.head, "call": mm::show(&call)}));
+                }
+            },
+        );
+        after_family(&mut ctx);
+    }
+
+    // F1e: characters outside ASCII (2-, 3- and 4-byte) in prefix, delimiters, arguments
+    {
+        let (e2, e3, e4) = (Tok::Ch('\u{e9}', 12), Tok::Ch('\u{20ac}', 12), Tok::Ch('\u{1d4b3}', 12));
+        let mut specs = vec![];
+        let plists: Vec<(Vec<Tok>, Vec<Option<Vec<Tok>>>)> = vec![
+            (vec![], vec![Some(vec![e2])]),
+            (vec![], vec![Some(vec![e3, e4])]),
+            (vec![], vec![Some(vec![e2, e3, e2])]),
+            (vec![], vec![None, Some(vec![e4])]),
+            (vec![e2], vec![None]),
+            (vec![e4, e3], vec![Some(vec![e3]), None]),
+        ];
+        for (prefix, params) in plists {
+            for hash in [false, true] {
+                let mut body = revealing_body(params.len());
+                body.push(Piece::T(e4));
+                specs.push(DefSpec { kind: Kind::Def, prefix: prefix.clone(), params: params.clone(), hash, body });
+            }
+        }
+        let defs = build_ctxs(specs, &mut ctx);
+        let alpha = [e2, e3, e4, LB, RB, B];
+        let maxlen = ctx.pick(5u32, 7u32);
+        let ncalls = vcore::strings_upto(6, maxlen);
+        let n = defs.len() as u64 * ncalls;
+        let dref = &defs;
+        ctx.family("non-ascii", &format!("{} definitions whose prefix / delimiters / replacement text contain U+00E9, U+20AC, U+1D4B3 (2, 3, 4 bytes in UTF-8) x every call string of length <= {maxlen} over those three characters, {{, }}, b", defs.len()), n, |i, acc| {
+            let d = &dref[(i / ncalls) as usize];
+            let call: Vec<Tok> = vcore::nth_string(6, i % ncalls).into_iter().map(|j| alpha[j as usize]).collect();
+            let before = acc.counters.get("matching_calls").copied().unwrap_or(0);
+            check_case(i, d, &call, false, &|_| true, acc);
+            if acc.counters.get("matching_calls").copied().unwrap_or(0) > before {
+                acc.count("matching_call_with_non_ascii_tokens");
+            }
+        });
+        after_family(&mut ctx);
+    }
+
+    // F1f: the program cut off at every position (end of input inside the parameter text, the replacement
+    // text, the prefix, a delimited / undelimited argument, a group): no panic
+    {
+        let specs = defs_for_strings(false);
+        let defs = build_ctxs(specs, &mut ctx);
+        let calls: Vec<Vec<Tok>> = vec![vec![A, B, LB, B, RB, DOT, A, A, X, SP, DOT], vec![LB, LB, B, RB, RB, A, B, A, A, DOT, A, DOT]];
+        let mut progs: Vec<String> = vec![];
+        for d in &defs {
+            for c in &calls {
+                let mut stream = vec![Tok::Cs("xa"), Tok::Cs("capture"), Tok::Cs("m")];
+                stream.extend_from_slice(&d.spec.prefix);
+                stream.extend_from_slice(c);
+                stream.extend_from_slice(&[RELAX, Z, END]);
+                if let Some(t) = render(&stream, false) {
+                    progs.push(format!("{}{}", d.head, t));
+                }
+            }
+        }
+        let mut offs = vec![];
+        let mut n = 0u64;
+        for p in &progs {
+            offs.push(n);
+            n += p.len() as u64; // ASCII: every byte position is a cut
+        }
+        let (pref, oref) = (&progs, &offs);
+        ctx.family("truncations", &format!("{} programs (every definition of calls-all-strings with 2 calls) cut off after every character", progs.len()), n, |i, acc| {
+            let k = oref.partition_point(|o| *o <= i) - 1;
+            let cut = (i - oref[k]) as usize;
+            let src = &pref[k][..cut];
+            acc.eval();
+            acc.count("truncated_programs");
+            match run_m_macro_only(src, &[]) {
+                Outcome::Panic(p) => acc.fail(i, json!({"kind": "truncation", "program": src}), "no panic", p.describe(), "panic on a truncated program"),
+                Outcome::Cutoff => acc.cutoffs += 1,
+                o => acc.class(&format!("truncated: {}", o.class())),
+            }
+        });
+        after_family(&mut ctx);
+    }
+
     // F2: argument tuples by shape
     {
         let kinds: Vec<Option<Vec<Tok>>> = vec![None, Some(vec![DOT]), Some(vec![A, B]), Some(vec![A, A]), Some(vec![X]), Some(vec![SP])];
@@ -706,14 +1002,16 @@ fn main() {
             ("./undelimited alternating", (0..9).map(|i| if i % 2 == 1 { None } else { dot.clone() }).collect()),
             ("all delimited by ab", vec![ab.clone(); 9]),
             ("8 undelimited then .", (0..9).map(|i| if i < 8 { None } else { dot.clone() }).collect()),
+            ("eight undelimited", vec![None; 8]),
+            ("eight delimited by .", vec![dot.clone(); 8]),
         ];
         let u_menu: Vec<Vec<Tok>> = ctx.pick(vec![vec![B], vec![LB, B, RB], vec![SP, LB, RB]], vec![vec![B], vec![LB, B, RB], vec![SP, LB, RB], vec![LB, LB, B, RB, RB], vec![X]]);
         let d_menu: Vec<Vec<Tok>> = ctx.pick(vec![vec![], vec![LB, B, RB], vec![LB, B, RB, LB, RB]], vec![vec![], vec![LB, B, RB], vec![LB, B, RB, LB, RB], vec![A], vec![SP, LB, B, RB]]);
-        let reversed: Vec<Piece> = (1..=9u8).rev().map(Piece::P).collect();
         let mut tds: Vec<TupleDef> = vec![];
         for (_, params) in &patterns {
+            let reversed: Vec<Piece> = (1..=params.len() as u8).rev().map(Piece::P).collect();
             for hash in [false, true] {
-                for body in [revealing_body(9), reversed.clone()] {
+                for body in [revealing_body(params.len()), reversed.clone()] {
                     let spec = DefSpec { kind: Kind::Def, prefix: vec![], params: params.clone(), hash, body };
                     match tuple_def(spec, &u_menu, &|_| d_menu.clone()) {
                         Ok(t) => tds.push(t),
@@ -732,7 +1030,7 @@ fn main() {
         ctx.family(
             "nine-parameters",
             &format!(
-                "{} definitions with nine parameters ({}; each with/without #{{; bodies [#1]..[#9] and #9#8..#1) x every 9-tuple over {} argument shapes per parameter",
+                "{} definitions with nine (and, one below the limit, eight) parameters ({}; each with/without #{{; bodies [#1]..[#n] and #n..#1) x every 9-tuple over {} argument shapes per parameter",
                 tds.len(),
                 patterns.iter().map(|p| p.0).collect::<Vec<_>>().join(", "),
                 u_menu.len()
@@ -743,7 +1041,7 @@ fn main() {
                 let t = &tref[di];
                 let (call, digits) = tuple_call(t, i - oref[di]);
                 check_case(i, &t.ctx, &call, false, &|c| call.len() > f1_maxlen && parsed_as_constructed(t, &digits, c), acc);
-                acc.count("nine_parameter_calls");
+                acc.count(if t.ctx.spec.params.len() == 9 { "nine_parameter_calls" } else { "eight_parameter_calls" });
                 if i % 300_007 == 5 {
                     acc.sample(i, || json!({"definition": t.ctx.head, "shape_indices": digits, "call": mm::show(&call)}));
                 }
@@ -769,7 +1067,7 @@ fn main() {
         ];
         // three argument tuples per parameter text, by position: (for undelimited, for delimited)
         let arg_sets: [(Vec<Tok>, Vec<Tok>); 3] = [(vec![B], vec![B]), (vec![LB, B, RB], vec![LB, B, RB, LB, RB]), (vec![SP, LB, RB], vec![])];
-        let kinds = [Kind::Def, Kind::Gdef, Kind::GroupGdef, Kind::GlobalDef];
+        let kinds = ALL_KINDS;
         // index space: ptext x kind x body x argset
         let mut items: Vec<(usize, Vec<Vec<Piece>>)> = vec![];
         for (pi, (_, params, _)) in ptexts.iter().enumerate() {
@@ -784,7 +1082,7 @@ fn main() {
         let (iref, oref, pref, aref) = (&items, &offs, &ptexts, &arg_sets);
         ctx.family(
             "replacement-texts",
-            &format!("8 parameter texts (0-2 parameters, prefix, #{{) x \\def / \\gdef / {{\\gdef}} called outside the group / \\global\\def x every replacement text of <= {maxpieces} pieces over {{x, \\x, space, ##, {{}}, #i, {{#i}}}} x 3 argument tuples"),
+            &format!("8 parameter texts (0-2 parameters, prefix, #{{) x 14 ways of defining (\\def, \\gdef, {{\\gdef}} called outside the group, \\global\\def, \\global\\gdef, \\global\\global\\def, \\long / \\outer / \\global prefixes in several orders, a redefinition of the same name, a local redefinition that has ended, the active character ~ as the macro) x every replacement text of <= {maxpieces} pieces over {{x, \\x, space, ##, {{}}, #i, {{#i}}}} x 3 argument tuples"),
             n,
             |i, acc| {
                 let ii = oref.partition_point(|o| *o <= i) - 1;
@@ -865,6 +1163,13 @@ fn main() {
     ctx.require("hash_brace_form_matched", "a call of a macro whose parameter text ends with #{");
     ctx.require("matching_call_with_delimiter_character_of_other_catcode", "a matching call whose argument contains the delimiter's character with another category code (must not end the argument)");
     ctx.require("nine_parameter_calls", "calls of nine-parameter macros");
+    ctx.require("eight_parameter_calls", "calls of eight-parameter macros (one below the limit)");
+    ctx.require("route_matching_call_after_another_call", "a matching call made after another macro call in the same run");
+    ctx.require("route_matching_call_inside_an_expansion", "a matching call of a second macro whose tokens come from the first macro's expansion");
+    ctx.require("route_matching_call_made_by_the_main_loop", "a matching call made by the main loop, observed through the character handler");
+    ctx.require("route_matching_call_at_end_of_input", "a matching call that ends with the input");
+    ctx.require("matching_call_with_non_ascii_tokens", "a matching call with 2/3/4-byte characters in delimiter or argument");
+    ctx.require("truncated_programs", "programs cut off at every position");
     ctx.require("double_hash_in_replacement_text", "## in a replacement text");
     ctx.require("gdef_or_global_def", "definitions made with \\gdef / \\global\\def");
     ctx.require("via_lexer", "calls written as source text");
